@@ -45,3 +45,12 @@ Definition tddbg (m ns : Z) : list Z := cells c_int (td_debug m ns).
 (* format!("{:?}", DateTime::<U>::new(x)) *)
 Definition dtdbg (u x : Z) : list Z :=
   match dt_debug u x with Ok text => cells c_int text | Panic k => c_panic k end.
+
+(* Time::parse(s, Some("%H:%M:%S")) then Timelike::hour() of the result (a leap second gives a Time of a whole day or more
+   past midnight..., on which as_cr() is None and the getter unwraps it) *)
+From Tevec Require Model.Time.
+Definition tmleap (s : list Z) : list Z :=
+  match time_parse_with fmt_hms s with
+  | Some v => c_int v ++ match Time.time_hour v with Ok h => c_int h | Panic k => c_panic k end
+  | None => c_err
+  end.
